@@ -3,6 +3,7 @@ CONSTANTS Streams <- Huge
   ReadMax = 65535
   MaxReads = 2
   Fails <- NoFail
+  Swaps <- NoSwap
   Cuts <- HugeCuts
   D = 0
 INIT Init
